@@ -2,7 +2,7 @@ import LdarModel.Model.Emission
 import LdarModel.Driver.Proto
 /-
 Driver for the emission state machine.
-  case <start> <nrd> <delay> <repairable> <intermittent> <activeDur> <inactiveDur> <N> [[day,company,trd],...]
+  case <start> <nrd> <delay> <repairable> <intermittent> <activeDur> <inactiveDur> <N> [[day,company,trd(,kind)],...]   kind 1 = detection-only event
   (the end date handed to calc_mitigated is the model's own `summaryEndArg N`)
     -> <summary> | <state after day 0>;<state after day 1>;...
   summary = status activeDays emitDays mitDays endDate by tagged initDetect initDetectBy
@@ -22,15 +22,18 @@ def showSummary (p : Params) (s : State) (endArg : Int) : String :=
   let idb := match s.initDetectBy with | none => "-" | some c => s!"c{c}"
   s!"{showStatus s.status} {s.activeDays} {emitDays p s} {mitDays p s endArg} {showOptInt s.endDate} {showBy s.by_} {showBool s.tagged} {showOptInt s.initDetect} {idb}"
 
-def parseEv (s : String) : Option (Nat × TagEv) := do
+/-- event = [day, company, reportingDelay] (a tag request) or [day, company, 0, 1] (detection only) -/
+def parseEv (s : String) : Option (Nat × Ev) := do
   match ← intList? s with
-  | [d, c, t] => if d < 0 ∨ c < 0 then none else some (d.toNat, { company := c.toNat, trd := t })
+  | [d, c, t] => if d < 0 ∨ c < 0 then none else some (d.toNat, .tag { company := c.toNat, trd := t })
+  | [d, c, t, 0] => if d < 0 ∨ c < 0 then none else some (d.toNat, .tag { company := c.toNat, trd := t })
+  | [d, c, _, 1] => if d < 0 ∨ c < 0 then none else some (d.toNat, .detect c.toNat)
   | _ => none
 
-def runCase (p : Params) (N : Nat) (evs : List (Nat × TagEv)) : State × List String :=
+def runCase (p : Params) (N : Nat) (evs : List (Nat × Ev)) : State × List String :=
   (List.range N).foldl (fun (acc : State × List String) (n : Nat) =>
       let todays := (evs.filter (fun e => e.1 = n)).map (·.2)
-      let s' := day p (n : Int) todays acc.1
+      let s' := dayE p (n : Int) todays acc.1
       (s', showDay p s' :: acc.2)) (init, [])
 
 def step (_ : Unit) (toks : List String) : Unit × String :=
